@@ -238,7 +238,7 @@ theorem stakeOf_append (e : Epoch) (X Y : List Nat) : stakeOf e (X ++ Y) = stake
 
 theorem stakeOf_single (e : Epoch) (j : Nat) : stakeOf e [j] = e.stake j := by simp [stakeOf]
 
-theorem isMet_mono (num den a b total : Nat) (hab : a ≤ b) (h : isMet num den a total = true) : isMet num den b total = true := by
+theorem isMet_mono_le (num den a b total : Nat) (hab : a ≤ b) (h : isMet num den a total = true) : isMet num den b total = true := by
   unfold isMet at *
   simp only [decide_eq_true_eq, ge_iff_le] at *
   exact Nat.le_trans h (Nat.mul_le_mul_right _ hab)
@@ -424,9 +424,9 @@ theorem NotarSt.addNotar {e : Epoch} (hpos : 0 < e.total) {s h : Nat} {X F : Lis
   have hnf0 : (st.stored e ⟨.notar, s, h, j⟩).isNf h = e.isQuorum (stakeOf e X) := by rw [stored_isNf]; exact cc.cNf
   have hlist : r.2.1 = notarCertsOn e (st.stored e ⟨.notar, s, h, j⟩) h := hcerts
   have hq : e.isQuorum (stakeOf e X) = true → e.isQuorum (stakeOf e (X ++ [j])) = true :=
-    fun hh => isMet_mono _ _ _ _ _ (by omega) hh
+    fun hh => isMet_mono_le _ _ _ _ _ (by omega) hh
   have hf : e.isStrong (stakeOf e X) = true → e.isStrong (stakeOf e (X ++ [j])) = true :=
-    fun hh => isMet_mono _ _ _ _ _ (by omega) hh
+    fun hh => isMet_mono_le _ _ _ _ _ (by omega) hh
   have hS1 : lookupD (st.stored e ⟨.notar, s, h, j⟩).sNotar h = stakeOf e (X ++ [j]) := hsn
   have hS2 : lookupD (st.stored e ⟨.notar, s, h, j⟩).sNf h = 0 := b.sNf
   have hS3 : (st.stored e ⟨.notar, s, h, j⟩).cNotar = st.cNotar := rfl
@@ -568,7 +568,7 @@ theorem NotarSt.addFinal {e : Epoch} {s h : Nat} {X F : List Nat} {st : SlotStat
     have h2 : (st.stored e ⟨.final, s, 0, j⟩).cFin = st.cFin := rfl
     rw [h1, h2, hcF']
   have hq : e.isQuorum (stakeOf e F) = true → e.isQuorum (stakeOf e (F ++ [j])) = true :=
-    fun hh => isMet_mono _ _ _ _ _ (by omega) hh
+    fun hh => isMet_mono_le _ _ _ _ _ (by omega) hh
   have hS5 : (st.stored e ⟨.final, s, 0, j⟩).slot = s := b.slot
   have hkinds : ∀ c ∈ r.2.1, c.kind = .final := by
     intro c hc
@@ -665,7 +665,7 @@ theorem SkipSt.addSkip {e : Epoch} {t : Nat} {Y : List Nat} {st : SlotState} (hs
     have h3 : (st.stored e ⟨.skip, t, 0, j⟩).sSf = 0 := hst.sSf
     rw [h1, h2, h3, hcS', Nat.add_zero]
   have hq : e.isQuorum (stakeOf e Y) = true → e.isQuorum (stakeOf e (Y ++ [j])) = true :=
-    fun hh => isMet_mono _ _ _ _ _ (by omega) hh
+    fun hh => isMet_mono_le _ _ _ _ _ (by omega) hh
   have hS5 : (st.stored e ⟨.skip, t, 0, j⟩).slot = t := hst.slot
   have hkinds : ∀ c ∈ r.2.1, c.kind = .skip := by
     intro c hc
